@@ -17,8 +17,15 @@ Tolerances (documented, `compare: "tol"`):
   such a step the code divides rounding noise by tol/2, the result is not determined by the exact
   model (nor by the real code up to rounding), so it is never compared;
 * matrices are chosen with well-conditioned eigenbases (cond(X) <= ~10) and separated spectra so
-  that modified Gram–Schmidt is well conditioned at n <= 12 (quick) / 40 (thorough); tolerances
-  tol are >= 1e-8 (the code cannot detect a breakdown below rounding noise).
+  that modified Gram–Schmidt is well conditioned at n <= 12 (+ 32, 64) (quick) / 40 (+ 64, 100, 150, 200) (thorough);
+  tolerances tol are >= 1e-8 (the code cannot detect a breakdown below rounding noise).
+
+`arnoldi_eigs` (stream of every single-start case with `eigs`): the model's `Arnoldi.arnoldiEigs` is EXECUTED by the driver (kind
+"arnoldi_eigs").  Its parameter `eig` (= xnp.eig, LAPACK geev) is instantiated with LAPACK's actual answer on the real run's
+matrix H[:k,:k] (recomputed in-process and required to reproduce the eigenvalues returned by the real `arnoldi_eigs` bit for bit);
+the contract of `eig` (`EigPairs` in Lemmas/ArnoldiEigsRun.lean) is checked on the matrix the MODEL hands over
+(|H_model vs - vs diag(ev)| <= 1.001e-8*k*max(1,|A|), the 1e-8 being the real-vs-model tolerance on H); the model's returned
+eigenvectors Q_model[:, :k] @ vs are compared with the real ones entry-wise to 1e-8*|vs[:, j]|_1 (what |dQ| <= 1e-8 implies).
 """
 import json
 import math
@@ -282,6 +289,11 @@ def stream(ctx, g):
             c["A"] = tojson(Ar.astype(complex))
             c["mixed"] = True
             out.append(c)
+    # E. the sizes of the property text (n up to 200), once per run: max_iters below, at and beyond n; with arnoldi_eigs
+    big = [(32, 32, False), (64, 67, True)] if not ctx.thorough else \
+        [(64, 64, False), (64, 20, True), (100, 103, True), (100, 50, False), (150, 150, False), (200, 200, True), (200, 40, False), (200, 203, False)]
+    for n, M, cplx in big:
+        out.append(make_case(g, n, CLASSES[int(g.integers(len(CLASSES)))], cplx, M, 1e-7, ["generic"], eigs=True, stream="E"))
     return out
 
 
@@ -309,6 +321,11 @@ def eval_real(case):
             ev, vecs, _ = arnoldi_eigs(Aop, np.array(V[0]), max_iters=case["M"], tol=case["tol"])
             out["eigvals"] = np.asarray(ev)
             out["eigvecs"] = np.asarray(vecs.to_dense())
+            # the answer of xnp.eig inside arnoldi_eigs, recomputed on the same matrix (same LAPACK routine, same bits in)
+            kk = out["iterations"] - 1
+            ev2, vs2 = np.linalg.eig(Hd[0][:kk, :kk]) if kk > 0 else (np.zeros(0), np.zeros((0, 0)))
+            out["eig_answer"] = (np.asarray(ev2), np.asarray(vs2))
+            out["eig_reproduced"] = bool(np.array_equal(np.asarray(ev2), out["eigvals"]))
         return out
     except Exception as ex:  # noqa: BLE001
         return {"exception": f"{type(ex).__name__}: {ex}"}
@@ -474,6 +491,30 @@ def spec_check(case, real):
         margin = min(abs(real["H"][c][steps, steps - 1].real - tol * real["H"][c][1, 0].real) for c in range(k))
         if margin > 1e-9 * sc:
             fails.append(("stops-too-early", None, f"steps={steps}"))
+    # ... and not later (other half of C15_stopping): the code continues at index idx only if some start vector has
+    # norm > tol*H[1,0]; both numbers are stored in the returned H (norm = H[idx, idx-1]) and `tol * H[1,0]` is the very float
+    # expression the code evaluates, so the comparison is exact
+    for idx in range(1, steps):
+        nrm = [real["H"][c][idx, idx - 1].real for c in range(k)]
+        ref = [tol * real["H"][c][1, 0].real for c in range(k)]
+        if all(np.isfinite(nrm)) and all(np.isfinite(ref)) and all(a <= b for a, b in zip(nrm, ref)):
+            fails.append(("stops-too-late", None, f"at index {idx} every start vector had norm <= tol*H[1,0] ({nrm[0]:.3e} <= {ref[0]:.3e}) "
+                                                  f"but {steps - idx} more steps were executed"))
+            break
+    # H = Q^H A Q on the orthonormal columns (projected matrix), for every start vector
+    for c in range(k):
+        Q, H = real["Q"][c], real["H"][c]
+        beta = np.array([H[i + 1, i].real for i in range(M)])
+        jn = first_small(H, steps, noise)
+        jc = first_small(H, steps, tol / 2 * (1 - 1e-12))
+        clip_genuine = jc < steps and beta[jc] > noise
+        r = min(jn, steps)
+        ncol = min(steps, jn + 1, r + 1)
+        if ncol > 0:
+            P = Q[:, :r + 1].conj().T @ (A @ Q[:, :ncol]) - H[:r + 1, :ncol]
+            if np.abs(P).max() > 1e-6 * sc * (r + 2):
+                clause = "noClip" if (clip_genuine and jc < r) else None
+                fails.append(("projection", clause, f"col {c}: |Q^H A Q - H|={np.abs(P).max():.3e} on the leading {r + 1} x {ncol} block"))
     # arnoldi_eigs
     if "eigvals" in real:
         ev = real["eigvals"]
@@ -502,6 +543,21 @@ def spec_check(case, real):
                 if d > etol:
                     clause = "noPaddingEigs" if len(ev) > steps else None
                     fails.append(("eigs-spectrum", clause, f"returned {len(ev)} values for an n={n} operator; matching distance {d:.3e}"))
+            # the returned eigenvectors: eigvectors[:, j] is a non-zero eigenvector of A for eigvals[j] (C15_arnoldiEigs_sound);
+            # the residual of a Ritz pair of an invariant block does not depend on the conditioning of the eigenvectors
+            X = real.get("eigvecs")
+            if X is not None and len(ev) == steps:
+                if X.shape != (n, len(ev)):
+                    fails.append(("eigvecs-shape", None, f"eigenvectors of shape {X.shape} for {len(ev)} eigenvalues, n={n}"))
+                else:
+                    worst, wj = 0.0, -1
+                    for j2 in range(len(ev)):
+                        nx = np.linalg.norm(X[:, j2])
+                        rj = np.linalg.norm(A @ X[:, j2] - ev[j2] * X[:, j2]) if nx > 0.5 else float("inf")
+                        if rj > worst:
+                            worst, wj = rj, j2
+                    if worst > etol:
+                        fails.append(("eigvecs-residual", None, f"|A x - lambda x| = {worst:.3e} for returned pair {wj} (lambda={ev[wj]:.5g})"))
     return fails
 
 
@@ -535,6 +591,65 @@ def compare_eigs(case, real, model):
     return []
 
 
+def eigs_driver_case(case, real, cid):
+    """driver case running `Arnoldi.arnoldiEigs` with `eig := fun _ => (LAPACK's answer on the real run's matrix)`; always in the
+    complex instance (geev returns complex eigenvalues for a real matrix)"""
+    cplx = case["complex"]
+    A = fromjson(case["A"], cplx).astype(complex)
+    V = fromjson(case["V"], cplx).astype(complex)
+    ev, vs = real["eig_answer"]
+    d = {"id": cid, "kind": "arnoldi_eigs", "complex": True, "n": case["n"], "M": case["M"], "tol": bits(case["tol"]),
+         "A": enc(A, True), "V": enc(V[:1], True), "eigvals": enc(np.asarray(ev, dtype=complex), True),
+         "eigvecs": enc(np.asarray(vs, dtype=complex), True)}
+    if os.environ.get("VERIF_ARNOLDI_TRIM"):
+        d["trim"] = os.environ["VERIF_ARNOLDI_TRIM"] == "1"
+    return d
+
+
+def compare_eigs_run(case, real, model, ans):
+    """the executed model `arnoldiEigs` against the real `arnoldi_eigs` -> list of mismatch strings"""
+    if ans is None or "eig_answer" not in real:
+        return []
+    if "error" in ans:
+        return [f"arnoldi_eigs driver: {ans['error']}"]
+    A, an = norms(case)
+    sc = max(1.0, an)
+    noise = NOISE_REL * an
+    if real["iterations"] != ans["iterations"]:
+        return []           # noise-determined stop: already judged by compare_real_model on the arnoldi stream
+    steps = ans["steps"]
+    if first_small(real["H"][0], steps, noise) < steps - 1:
+        return []           # stepping continued after a noise breakdown: amplified noise, not comparable
+    ev, vs = real["eig_answer"]
+    k = len(ev)
+    mism = []
+    ev_m = dec(ans["ev"], True) if ans["ev"] else np.zeros(0, dtype=complex)
+    ritz = dec(ans["ritz"], True) if ans["ritz"] else np.zeros((0, case["n"]), dtype=complex)      # (k, n)
+    Hm = dec(ans["eigsH"], True) if ans.get("eigsH") else np.zeros((0, 0), dtype=complex)
+    if Hm.shape != (k, k) or len(ev_m) != k or ritz.shape[0] != k:
+        return [f"arnoldi_eigs: real hands a {k}x{k} matrix to eig, the model a {Hm.shape[0]}x{Hm.shape[0] if Hm.ndim == 2 else 0} one "
+                f"and returns {len(ev_m)} values / {ritz.shape[0]} vectors"]
+    if k == 0:
+        return []
+    if not np.array_equal(ev_m, np.asarray(ev, dtype=complex)):
+        mism.append("arnoldi_eigs: the model does not return the eigenvalues eig gave it")
+    # contract of the parameter `eig` on the matrix the MODEL handed over
+    resid = np.abs(Hm @ vs - vs * np.asarray(ev)[None, :]).max()
+    if resid > 1.001e-8 * k * sc:
+        mism.append(f"arnoldi_eigs: eig's answer is not an eigen-decomposition of the model's matrix: residual {resid:.3e}")
+    # returned eigenvectors
+    X = real["eigvecs"]
+    if X.shape != (case["n"], k):
+        mism.append(f"arnoldi_eigs: real eigenvectors of shape {X.shape}, model {(case['n'], k)}")
+    else:
+        bound = 1e-8 * np.abs(vs).sum(axis=0)                    # |dQ| <= 1e-8 entry-wise  ==>  |d(Q v)| <= 1e-8 |v|_1
+        d = np.abs(X - ritz.T).max(axis=0)
+        bad = np.nonzero(d > bound + 1e-13)[0]
+        if len(bad):
+            mism.append(f"arnoldi_eigs: eigenvector {int(bad[0])}: |x_real - x_model| = {d[bad[0]]:.3e} > {bound[bad[0]]:.3e}")
+    return mism
+
+
 # ------------------------------------------------------------------ engine
 class Engine:
     def __init__(self, ctx, prop_known):
@@ -546,6 +661,11 @@ class Engine:
         self.dist = {"n": {}, "m_vs_n": {"m<n": 0, "m=n": 0, "m>n": 0}, "breakdown": 0, "batch": {}, "complex": 0, "real": 0,
                      "clauses": {}, "clause_by_stream": {}, "cls": {}, "tol": {}, "outcomes": {"ok": 0, "modelled-defect": 0, "real!=model": 0}}
         self.samples = []
+
+    def unexcused(self, fails):
+        """failed statements that no RECORDED clause explains: clause None, or a clause name that is not listed for this property in
+        known_findings.json (e.g. the regression detectors `noPaddingEigs`, `keepLastRow` of repaired defects)"""
+        return [f for f in fails if f[1] is None or f[1] not in self.known]
 
     def account(self, case, real):
         key = common.canon({k: case[k] for k in ("A", "V", "M", "tol", "batched", "eigs")})
@@ -572,10 +692,18 @@ class Engine:
             s["V"] = str(s["V"])[:120] + "…"
             self.samples.append(s)
 
-    def judge(self, case, real, model):
+    def judge(self, case, real, model, eigs_ans=None):
         """three-way classification of one case"""
         ctx = self.ctx
         mism = compare_real_model(case, real, model) + (compare_eigs(case, real, model) if not ("exception" in real or "error" in model) else [])
+        if not ("exception" in real or "error" in model):
+            mism += compare_eigs_run(case, real, model, eigs_ans)
+            if case.get("eigs") and "eigvals" in real:
+                key = "executed" if eigs_ans is not None and "error" not in (eigs_ans or {}) else "not-run"
+                if not real.get("eig_reproduced", False):
+                    key = "eig-not-reproducible(skipped)"
+                self.dist.setdefault("arnoldiEigs_model_runs", {}).setdefault(key, 0)
+                self.dist["arnoldiEigs_model_runs"][key] += 1
         fails = spec_check(case, real)
         if case.get("mixed") and (mism or fails) and "Q" in real:
             # real operator, complex operand: the Lean model has one scalar type (it computes in the promoted dtype, as the
@@ -588,7 +716,7 @@ class Engine:
                 fails = [(f[0], MIXED, f[2]) for f in fails] or [("first-column", MIXED, "Q is real although the start vector is complex")]
         if mism:
             self.dist["outcomes"]["real!=model"] += 1
-            hard = [f for f in fails if f[1] is None]
+            hard = self.unexcused(fails)
             if hard:
                 common.violation(ctx, {"case": case, "failed": [list(f) for f in hard], "real_vs_model": mism})
             else:
@@ -623,37 +751,86 @@ class Engine:
                 break
         return status
 
-    def search(self, case):
-        """real != model: look for a (smaller) input on which the REAL code violates a property statement"""
+    def search(self, case, budget=140):
+        """real != model: look for a concrete input on which the REAL code violates a property statement that no recorded clause
+        explains (first column, Hessenberg, orthonormality, H = Q^H A Q, Arnoldi relation, stopping rule, padding, spectrum,
+        eigenvectors).  Neighbourhood: the case under nearby parameters (default tolerance, max_iters around n), the operator scaled to
+        norm 1 (takes the absolute clip out of the picture), other start vectors (unit vector, all-ones, an eigenvector, a vector in a
+        2-dimensional invariant subspace, batches mixing them), leading principal sub-blocks.  -> (case, hard failures) | None"""
         cplx = case["complex"]
         A = fromjson(case["A"], cplx)
         V = fromjson(case["V"], cplx)
         n = case["n"]
-        tried = 0
-        for nn in [n] + list(range(1, n)):
-            for M in range(1, nn + 4):
-                c2 = dict(case)
-                c2.update({"n": nn, "M": M, "A": tojson(A[:nn, :nn]), "V": tojson(V[:, :nn]), "eigs": bool(case.get("eigs")),
-                           "grades": [nn] * len(case["V"])})
-                if not np.all(np.linalg.norm(V[:, :nn], axis=1) > 0):
-                    continue
-                r = eval_real(c2)
-                hard = [f for f in spec_check(c2, r) if f[1] is None]
-                tried += 1
-                if hard:
-                    return c2, hard
-                if tried > 60:
-                    return None
+        an = float(np.linalg.norm(A, 2)) if A.size else 0.0
+        cands, seen = [], set()
+
+        def add(A2, V2, M, tol):
+            V2 = np.atleast_2d(V2)
+            if A2.shape[0] == 0 or M < 1 or not np.all(np.linalg.norm(V2, axis=1) > 0):
+                return
+            c2 = dict(case)
+            c2.update({"n": A2.shape[0], "M": int(M), "tol": float(tol), "A": tojson(A2), "V": tojson(V2), "batched": V2.shape[0] > 1,
+                       "eigs": V2.shape[0] == 1, "grades": [A2.shape[0]] * V2.shape[0], "starts": ["search"] * V2.shape[0],
+                       "stream": case.get("stream", "?") + "/search"})
+            c2.pop("mixed", None)
+            key = common.canon({k: c2[k] for k in ("A", "V", "M", "tol")})
+            if key not in seen:
+                seen.add(key)
+                cands.append(c2)
+
+        for tol in dict.fromkeys([case["tol"], 1e-7, 1e-5]):
+            for M in dict.fromkeys([case["M"], n, max(1, n - 1), n + 2]):
+                add(A, V, M, tol)
+        As = A / an if (an > 0 and not 0.5 <= an <= 2.0) else A
+        if As is not A:
+            for M in dict.fromkeys([n, case["M"], n + 2]):
+                add(As, V, M, 1e-7)
+        dt = complex if cplx else float
+        e1 = np.zeros(n, dtype=dt)
+        e1[0] = 1.0
+        starts = [e1, np.ones(n, dtype=dt)]
+        try:
+            w, X = np.linalg.eig(As)
+            if n >= 2:
+                v2 = X[:, 0] + X[:, 1]
+                starts.append(v2 if cplx else np.real(v2))
+            v1 = X[:, int(np.argmin(np.abs(w.imag)))]
+            starts.append(v1 if cplx else np.real(v1))
+        except Exception:  # noqa: BLE001
+            pass
+        for v in starts:
+            if np.linalg.norm(v) > 0:
+                for M in dict.fromkeys([n, n + 2, max(1, n // 2)]):
+                    add(As, v, M, 1e-7)
+        if len(starts) >= 3:
+            add(As, np.stack([V[0], starts[2]]), n, 1e-7)
+            add(As, np.stack([starts[2], V[0], starts[0]]), n + 1, 1e-7)
+        for nn in range(n - 1, 0, -1):
+            add(As[:nn, :nn], V[:, :nn], nn, 1e-7)
+            add(As[:nn, :nn], V[:1, :nn], nn + 1, 1e-7)
+        for c2 in cands[:budget]:
+            r = eval_real(c2)
+            hard = self.unexcused(spec_check(c2, r))
+            if hard:
+                return c2, hard
         return None
 
     def run(self, cases):
+        EOFF = 10 ** 7
+        reals = [eval_real(c) for c in cases]
         dcases = [driver_case(c, i) for i, c in enumerate(cases)]
+        # the model's arnoldi_eigs is executed with eig := LAPACK's (reproduced) answer of the real run
+        for i, (c, r) in enumerate(zip(cases, reals)):
+            if c.get("eigs") and r.get("eig_reproduced") and not c.get("mixed"):
+                dcases.append(eigs_driver_case(c, r, EOFF + i))
+        # big cases first so that the parallel driver processes are balanced
+        dcases.sort(key=lambda d: -(d["n"] ** 2 * min(d["M"], d["n"])))
         answers = run_driver(dcases)
         for i, c in enumerate(cases):
-            real = eval_real(c)
+            real = reals[i]
             model = decode_model(answers.get(i, {"error": "no answer from the Lean driver"}), c["complex"])
             self.account(c, real)
-            self.judge(c, real, model)
+            self.judge(c, real, model, answers.get(EOFF + i))
             sw = self.dist.setdefault("model_switch_trimPaddingInEigs", {})
             sw[str(model.get("trim"))] = sw.get(str(model.get("trim")), 0) + 1
 
@@ -695,14 +872,19 @@ def run(ctx):
         common.violation(ctx, {"broken": f"Lean gate of {MODULE}", "detail": gate_err[-3000:]}, no_input=True)
     cov = eng.coverage()
     cov["rule"] = ("A = X diag(lam) X^-1 with well-conditioned X (classes normal / nonsym / nonnormal / jordanish, real and complex, "
-                   "|lam| in [1,3] separated), n = 1..%d, max_iters = 1..n+3, start vectors generic / eigenvector / sum of 2-3 eigenvectors "
+                   "|lam| in [1,3] separated), n = 1..%d plus n = 32, 64 (quick) / 64, 100, 150, 200 (thorough), max_iters = 1..n+3, start vectors generic / eigenvector / sum of 2-3 eigenvectors "
                    "(breakdown), batches of 2-4 start vectors through the vmap shim, tol in {1e-3,1e-5,1e-7,1e-8} plus an edge stream "
                    "(operators of norm 1e-9, tol 0.5/0.9); distinct = canonical JSON of (A, V, max_iters, tol, batched, eigs); "
                    "non-trivial = n >= 2 and >= 1 executed step; comparison real vs Lean model: |dQ| <= 1e-8, |dH| <= 1e-8*max(1,|A|) on the "
-                   "columns before the first noise breakdown (norm <= 1e-10*|A|), iterations and errors equal; the property's "
-                   "statements are evaluated on the real outputs with NumPy" % (12 if not ctx.thorough else 40))
+                   "columns before the first noise breakdown (norm <= 1e-10*|A|), iterations and errors equal; the model's arnoldi_eigs "
+                   "(Arnoldi.arnoldiEigs) is executed by the driver for every single-start case, eig := LAPACK's answer of the real run, and its "
+                   "eigenvalues / eigenvectors are compared with the real ones (distributions.arnoldiEigs_model_runs); the property's "
+                   "statements (incl. both directions of the stopping rule, H = Q^H A Q, residuals of the returned eigenvectors) are evaluated "
+                   "on the real outputs with NumPy" % (12 if not ctx.thorough else 40))
     cov["trusted_base_extra"] = ["lean/DriverArnoldi.lean and the Float/CF instances of Arnoldi.Num / Arnoldi.VecOps (IEEE doubles; only the correspondence uses them)",
-                                 "xnp.eig (LAPACK geev) is a parameter of the model: eigenvalues are compared on the Python side from the matrix the model hands to eig"]
+                                 "xnp.eig (LAPACK geev) is a parameter of the model under the contract Arnoldi.EigPairs / EigComplete (satisfiable: Hess3.eigPairs_W, "
+                                 "Hess3.eigComplete_W): the driver runs Arnoldi.arnoldiEigs with eig := LAPACK's answer on the real run's matrix, and the harness checks "
+                                 "that answer against the contract on the matrix the model hands over"]
     common.write_evidence(ctx, gate, cov, assumptions=[
         "theorems are about exact real/complex arithmetic; rounding (loss of orthogonality, noise after a breakdown) is outside the model",
         "tol > 0 and non-zero start vectors (tol = 0 with an exact breakdown, or a zero start vector, give NaN in the real code: 0/0)",
